@@ -15,6 +15,11 @@ use crate::pos::{self, children_of, d32, kind_of, tree_of, Edge, T};
 use crate::rng::Rng;
 use crate::spec::{self, Item, Kind, D32};
 use crate::trap;
+use unicode_normalization::UnicodeNormalization;
+
+fn nfc(s: &str) -> String {
+    s.nfc().collect()
+}
 
 fn edge_type(e: Option<Edge>) -> EdgeType {
     match e {
@@ -251,7 +256,7 @@ fn check_counts_and_digests(ctx: &mut Ctx, e: &Envelope, t: &T) {
             let oi = chain(&t.children[1]);
             let txt = |i: &Option<Item>| if let Some(Item::Text(s)) = i { Some(s.clone()) } else { None };
             let sound = |r: anyhow::Result<String>, w: Option<String>, leafkind: bool| match r {
-                Ok(v) => Some(v) == w,
+                Ok(v) => Some(nfc(&v)) == w.as_ref().map(|x| nfc(x)),
                 Err(_) => !(leafkind && w.is_some()),
             };
             if !sound(e.extract_predicate::<String>(), txt(&pi), t.children[0].kind == Kind::Leaf) || !sound(e.extract_object::<String>(), txt(&oi), t.children[1].kind == Kind::Leaf) {
@@ -385,7 +390,7 @@ fn check_lookups(ctx: &mut Ctx, e: &Envelope, t: &T, rng: &mut Rng) {
                         1 => {
                             let st = &stored_text[0];
                             let sound = |r: &anyhow::Result<String>| match (r, st) {
-                                (Ok(v), Some(s)) => v == s,
+                                (Ok(v), Some(s)) => nfc(v) == nfc(s),
                                 (Ok(_), None) => false,
                                 (Err(_), _) => true,
                             };
@@ -394,7 +399,7 @@ fn check_lookups(ctx: &mut Ctx, e: &Envelope, t: &T, rng: &mut Rng) {
                             }
                             match &opt {
                                 Ok(None) => ctx.violation("typed-lookup/present-reported-absent", "extract_optional_object_for_predicate returned None although the predicate is present exactly once", replay()),
-                                Ok(Some(v)) if Some(v) != st.as_ref() => ctx.violation("typed-lookup/wrong-value", "optional typed lookup returned another value", replay()),
+                                Ok(Some(v)) if Some(nfc(v)) != st.as_ref().map(|x| nfc(x)) => ctx.violation("typed-lookup/wrong-value", "optional typed lookup returned another value", replay()),
                                 _ => {}
                             }
                             if matches!(try_opt, Ok(None)) {
@@ -413,7 +418,7 @@ fn check_lookups(ctx: &mut Ctx, e: &Envelope, t: &T, rng: &mut Rng) {
                             }
                             if let Ok(v) = &all {
                                 let w: Vec<String> = stored_text.iter().flatten().cloned().collect();
-                                if stored_text.iter().all(|x| x.is_some()) && *v != w {
+                                if stored_text.iter().all(|x| x.is_some()) && v.iter().map(|x| nfc(x)).collect::<Vec<_>>() != w.iter().map(|x| nfc(x)).collect::<Vec<_>>() {
                                     ctx.violation("typed-lookup/objects-differ", "extract_objects_for_predicate returned other values", replay());
                                 }
                             }
@@ -488,7 +493,8 @@ fn check_extract(ctx: &mut Ctx, e: &Envelope, t: &T) {
     match trap::guard(|| e.extract_subject::<String>()) {
         Err(p) => ctx.violation(&format!("extract-panic/String/{}", p.signature()), &format!("{:?}", p), replay()),
         Ok(Ok(v)) => {
-            if !matches!(&item, Some(Item::Text(x)) if *x == v) {
+            // (a text built through the API keeps its spelling in memory; its encoding is the NFC form)
+            if !matches!(&item, Some(Item::Text(x)) if nfc(x) == nfc(&v)) {
                 ctx.violation("extract-wrong-value/String", "extract_subject::<String> returned a string the subject does not hold", replay());
             }
         }
